@@ -116,6 +116,27 @@ Example C03_example :
   (21, 21, [], [TDone true; TDone false; TDone false]).
 Proof. vm_compute. reflexivity. Qed.
 
+(** the check-then-act window of setLocalHead (the shim's head is compared,
+    pending.Add comes later): a verifier call preempted there while Head()
+    learns the next head and the loop syncs it leaves a header BELOW the store
+    head in pending; sync() only logs "already synced", so the subjective head
+    (localHead, what Syncer.Head() reports and new heads are verified against)
+    stays below the store head.  Contiguity and provenance are unaffected (the
+    theorems above hold for this schedule too).  Reproduced on the real code by
+    harness/c03/stale_test.go. *)
+Example C03_stale_pending_example :
+  let es := [ EGossip (wch 19) 100%Z (Bif [] false); ET 0; ET 0; ET 0; ET 0
+            ; EHead (Some (wch 20)); ET 1; ET 1; ET 1; ET 1; ET 1; ET 1; ET 1
+            ; EL GErr; EL GErr; EL GErr; EL GErr; EL GErr
+            ; EL (GList [wch 18; wch 19]); EL GErr; EL GErr; EL GErr; EL GErr; EL GErr; EL GErr; EL GErr; EL GErr; EL GErr; EL GErr; EL GErr; EL GErr
+            ; ET 0; ET 0
+            ; EL GErr; EL GErr; EL GErr; EL GErr; EL GErr
+            ; EGossip (wch 21) 100%Z (Bif [] false); ET 2; ET 2; ET 2; ET 2; ET 2; ET 2; ET 2; EL GErr; EL GErr; EL GErr; EL GErr ] in
+  let c := run 10%Z (fun _ _ => TVOk) (init_cfg 15 [wch 15; wch 16; wch 17]) es in
+  (c_loop c, map (fun r => map h_height (r_hdrs r)) (c_pend c), rs_head (c_store c), h_height (local_head c), c_trig c) =
+  (LIdle, [[19]], 21, 19, false).
+Proof. vm_compute. reflexivity. Qed.
+
 Print Assumptions C03_store_contiguous.
 Print Assumptions C03_only_allowed_provenance.
 Print Assumptions C03_rejected_never_target.
